@@ -57,6 +57,14 @@ def run(ctx):
     for ks in (["甲", "乙", "丙", "甲"], ["a", "b", "a", "c", "b"], ["x", "x"], ["k1", "k2", "k3", "k4", "k5", "k1", "k3"]):
         lit = "【" + "，".join("“%s” = %d" % (k, i + 1) for i, k in enumerate(ks)) + "】"
         others.append(("literal-repeated-key", "导入《@JSON》\n令甲 = %s\n（显示：甲、甲之所有索引、甲之所有值、（生成JSON：甲））\n以键、值遍历甲：\n    （显示：键、值）\n0\n" % lit))
+    # dictionaries holding values that cannot be compared (a method, a type, an object) next to entries that differ: whether the
+    # comparison fails or answers, it does the same every time
+    unc = "如何F？\n    输出1\n定义K：\n    其p = 1\n令物 = （新建K）\n"
+    for vals1, vals2 in (("F，1，2", "F，9，8"), ("1，F，2", "9，F，8"), ("物，1，2", "物，9，2"), ("K，1，F", "K，2，F"), ("1，2，物", "3，4，物"), ("F，物，K", "F，物，K")):
+        d1 = "【" + "，".join("“%s” = %s" % (k, v) for k, v in zip("abc", vals1.split("，"))) + "】"
+        d2 = "【" + "，".join("“%s” = %s" % (k, v) for k, v in zip("cab", vals2.split("，"))) + "】"
+        for op in ("（显示：甲 为 乙）", "（显示：甲 == 乙）", "（显示：以【乙】（包含：甲））", "（显示：以【1，乙】（寻找：甲））", "（显示：以【【乙】】（包含：【甲】））"):
+            others.append(("uncomparable-in-dict", unc + "令甲 = %s\n令乙 = %s\n%s\n0\n" % (d1, d2, op)))
     others.append(("library-imported-twice", "导入《@JSON》\n导入《@文件》\n导入《@JSON》\n导入《@文件》\n（显示：（生成JSON：【“a” = 1】））\n0\n"))
     others.append(("library-imported-twice-then-error", "导入《@JSON》\n导入《@JSON》\n（解析JSON：“{”）\n"))
     for tag, src in others:
